@@ -556,4 +556,101 @@ example : (declareAll false [.level, .text "x".toList] {}
     (fun c => (find? "N".toList c.cache.pre, find? "M".toList c.cache.pre)) =
     .ok (some (.ok "\x1b[31mx".toList), some (.ok "x".toList)) := by decide +kernel
 
+/-! ## Format specs of arguments are argument text: never markup -/
+
+/-- the format spec of a field is parsed by the recursive call, which feeds every piece (literal text of the
+spec, rendered nested fields) RAW: whatever the pieces contain – `<>6`, `<b>x</b>`, backslashes before tags –
+parsing cannot fail, leaves the tag stack empty, and the spec handed to `format_field` is the plain
+concatenation of the pieces -/
+theorem spec_text_never_interpreted (pieces : List Str) :
+    ∀ p : P, feedMany p (pieces.map (fun t => (t, true))) =
+      .ok { tokens := p.tokens ++ pieces.map Tok.text, stack := p.stack } := by
+  induction pieces with
+  | nil => intro p; simp [feedMany]
+  | cons t r ih =>
+    intro p
+    simp only [List.map_cons, feedMany, feed, if_true]
+    rw [ih]; simp
+
+theorem spec_strip_is_concat (pieces : List Str) : strip (pieces.map Tok.text) = pieces.flatten := by
+  induction pieces with
+  | nil => rfl
+  | cons t r ih => simp [strip, ih]
+
+/-- the code feeds that way (regenerated from `Colorizer._parse_with_formatting` and
+`_parse_without_formatting`): literal text with `raw=recursive`, values / re-serialised fields with `raw=True`,
+the spec through a call with `recursive=True`, `recursive` defaulting to `False` -/
+theorem spec_feeds_are_raw :
+    GenEmit.msgFeeds = [("literal".toList, "recursive".toList), ("value".toList, "True".toList)] ∧
+    GenEmit.msgSpecCalls = ["True".toList] ∧ GenEmit.msgRecursiveDefault = "False".toList ∧
+    GenEmit.fmtFeeds = [("literal".toList, "recursive".toList), ("value".toList, "True".toList)] ∧
+    GenEmit.fmtSpecCalls = ["True".toList] ∧ GenEmit.fmtRecursiveDefault = "False".toList := by decide +kernel
+
+/-- REFUTING WITNESS for the shape "spec text fed like message text": the valid spec `<>6` (fill `<`, align
+`>`, width 6) is rejected, the tags of `%Y <b>x</b> %m` vanish, an escaping backslash is eaten -/
+theorem nonraw_spec_witness :
+    feed {} "<>6".toList false = .error .valueError ∧
+    (parse "%Y <b>x</b> %m".toList).map strip = .ok "%Y x %m".toList ∧
+    (parse "\\<b>".toList).map strip = .ok "<b>".toList ∧
+    (feedMany {} [("<>6".toList, true)]).map (fun p => strip p.tokens) = .ok "<>6".toList := by decide +kernel
+
+/-! ## Hex colours are exactly `#` + 3 or 6 hexadecimal digits -/
+
+theorem lookup_mem (t : List (Str × Nat)) (k : Str) (v : Nat) (h : lookup t k = some v) : ∃ e ∈ t, e.1 = k := by
+  induction t with
+  | nil => simp [lookup] at h
+  | cons e r ih =>
+    obtain ⟨k', v'⟩ := e
+    simp only [lookup] at h
+    split at h
+    · rename_i heq
+      exact ⟨(k', v'), by simp, by simpa using heq⟩
+    · obtain ⟨e, he, hk⟩ := ih h
+      exact ⟨e, by simp [he], hk⟩
+
+theorem splitOn_hash_head (h : Str) : ∃ x t, splitOn ',' ('#' :: h) = ('#' :: x) :: t := by
+  unfold splitOn
+  split
+  · rename_i a t _
+    exact ⟨a, t, by simp⟩
+  · exact ⟨[], [], rfl⟩
+
+theorem byteOk_hash (x : Str) : byteOk ('#' :: x) = false := by
+  simp [byteOk, isDigits, isDigitC]
+
+/-- a `<fg #…>` / `<bg #…>` tag is a colour ONLY when what follows `#` is 3 or 6 characters, all of them
+`[0-9a-fA-F]` – signs, underscores, blanks, `0x`, non-ASCII digits (everything `int(s, 16)` would also accept)
+are unknown tags -/
+theorem hex_colour_exact (isFg : Bool) (h a : Str) (hc : colorForm isFg ('#' :: h) = some a) :
+    h.all isHexC = true ∧ (h.length = 3 ∨ h.length = 6) := by
+  have nokey : ∀ (t : List (Str × Nat)) (f : Char → Char), (∀ e ∈ t, e.1.head? ≠ some (f '#')) →
+      lookup t (('#' :: h).map f) = none := by
+    intro t f ht
+    cases hl : lookup t (('#' :: h).map f) with
+    | none => rfl
+    | some v =>
+      obtain ⟨e, he, hk⟩ := lookup_mem t _ v hl
+      exact absurd (by rw [hk]; rfl) (ht e he)
+  have hrgb : ∀ sel, colorForm.rgbForm sel ('#' :: h) = none := by
+    intro sel
+    simp only [colorForm.rgbForm]
+    split
+    · obtain ⟨x, t, hs⟩ := splitOn_hash_head h
+      rw [hs]
+      simp [byteOk_hash]
+    · rfl
+  simp only [colorForm] at hc
+  have hfg : lookup Gen.fgTable (('#' :: h).map lowerC) = none := nokey _ _ (by decide)
+  have hbg : lookup Gen.bgTable (('#' :: h).map upperC) = none := nokey _ _ (by decide)
+  cases isFg <;> simp only [hfg, hbg, byteOk_hash, Bool.false_eq_true, if_false, if_true] at hc
+  all_goals
+    split at hc
+    · rename_i hcond
+      simp at hcond
+      exact ⟨by simpa using hcond.1, hcond.2⟩
+    · rw [hrgb] at hc; cases hc
+
+example : getAnsiCode "fg #+1+2+3".toList = none ∧ getAnsiCode "bg #-a-b-c".toList = none ∧
+    getAnsiCode "fg #0x10x20x3".toList = none := by decide +kernel
+
 end C06
